@@ -14,6 +14,8 @@ R08.4 tag extent: every fixed-offset store through the auth_tag argument fits th
       (auth_tag_len == 16 / 12 after the corresponding compare) and otherwise the smallest tag (8 bytes).
 R08.5 rolling-hash scan loops: every load of a stream byte indexed by the position register follows a comparison
       of that register with the end made after its last modification.
+R08.6 the ctx layer's variable-length copy helper (memcpy_gte16_*_varlen, one static copy per unit) reads N bytes at
+      src + i only under an established i + N <= nbytes, or end-anchored at nbytes - N.
 R08.3 rolling-hash window: in _rolling_hash2_run every address of the form buffer - w / buffer + i - w is computed
       only after the first loop has exited normally (i >= w), before that the window comes from state->history.
 """
@@ -283,6 +285,53 @@ def run(chk):
                 chk.obligation("R08.3", ok, key=I.id, sample={"function": F.name, "line": I.line})
                 if not ok:
                     chk.finding(Finding("R08.3", "rolling_hash/rolling_hash2.c", F.name, "look-back-before-window", "an address below `buffer` (buffer - w / buffer + i - w) is formed before the first w bytes have been consumed", loc=I.loc()))
+    # ---- R08.6 the ctx layer's variable-length copy helper never reads beyond src + nbytes
+    n86 = 0
+    for src_, M in sorted(mods.items()):
+        for F in M.defined():
+            if not re.match(r"^memcpy_gte16_\w+_varlen$", F.name):
+                continue
+            n86 += 1
+            src_n, nb_n = 1, 2
+            bad = None
+            for P in ir.paths_with_facts(F, max_paths=5000):
+                for pos, I in enumerate(P.insts):
+                    acc = None
+                    if I.op == "call" and re.match(r"^memcpy_\w+_fixedlen$", I.callee or "") and I.raw.get("nargs") == 3:
+                        acc = (I.ops[1], F.const_int(I.ops[2]))
+                    elif I.op == "load" and I.raw.get("size", 0) >= 1:
+                        acc = (I.ops[0], I.raw.get("size"))
+                    if acc is None or acc[1] is None:
+                        continue
+                    ptr, size = acc
+                    # find the (single) variable-index GEP on the src argument
+                    G = F.resolve(ptr)
+                    idx = None
+                    while isinstance(G, ir.Inst) and G.op in ("bitcast", "getelementptr"):
+                        if G.op == "getelementptr" and G.raw.get("off") is None and len(G.ops) == 2 and F.is_arg(F.resolve(G.ops[0]), src_n):
+                            idx = G.ops[1]
+                        G = F.resolve(G.ops[0])
+                    if not F.is_arg(G, src_n) or idx is None:
+                        continue
+                    k = P.bidx[pos]
+                    iv = P.at(F, idx, k)
+                    ok = False
+                    # end-anchored: idx == nbytes - size, size within the helper's precondition (nbytes >= 16)
+                    if isinstance(iv, ir.Inst) and iv.op == "sub" and F.is_arg(F.resolve(iv.ops[0]), nb_n) and F.const_int(iv.ops[1]) == size and size <= 16:
+                        ok = True
+                    for (val, pred, c, t, br, fpos), fk in zip(P.facts, P.fact_k):
+                        if fpos >= pos or pred != "ule" or not isinstance(c, ir.ValRef) or not F.is_arg(F.resolve(c.v), nb_n):
+                            continue
+                        A = F.resolve(val)
+                        if isinstance(A, ir.Inst) and A.op == "add" and F.const_int(A.ops[1]) is not None and F.const_int(A.ops[1]) >= size:
+                            if P.same(P.at(F, A.ops[0], fk), iv):
+                                ok = True
+                    if not ok and bad is None:
+                        bad = (I, size)
+            chk.obligation("R08.6", bad is None, key=(src_, F.name), sample={"unit": src_, "function": F.name})
+            if bad:
+                chk.finding(Finding("R08.6", src_, F.name, "read-past-source", "%d bytes are read from src + i on a path that has not established i + %d <= nbytes (and i is not nbytes - %d): up to %d bytes beyond the caller's buffer" % (bad[1], bad[1], bad[1], bad[1] - 1), loc=bad[0].loc()))
+    chk.floor("variable-length copy helpers", n86, 20)
     # ---- R08.5 rolling-hash scan loops: every stream byte load indexed by the position follows a bounds comparison
     # of the position made after its last modification (no speculative / software-pipelined load past the end)
     nscan = 0
